@@ -156,3 +156,16 @@ def summary_function(engine, out_sort, encode_exit):
             obs.append(Obligation("summary/exclusive[%d,%d]" % (terms[i][2], terms[j][2]), [],
                                   z3.Not(z3.And(terms[i][0], terms[j][0]))))
     return out, obs
+
+
+def call_by_contract(ctx, it, name, pre, havoc, post, result=None):
+    """modular call: prove `pre` (list of (name, formula)), havoc the cells in `havoc`
+    (list of VRef), assume `post()` (evaluated after the havoc), return `result()`"""
+    for n, f in pre:
+        ctx.oblige("call[%s]/pre[%s]@L%s" % (name, n, ctx.cur_line), f)
+    for ref in havoc:
+        ctx.check_write(ref.loc)
+        ctx.heap[ref.loc] = it.fresh_like(ctx.heap[ref.loc], "call_%s" % name)
+    for f in post():
+        ctx.assume(f)
+    return result() if result is not None else NONE
